@@ -44,11 +44,12 @@ class InjectedFault(Exception):
 
 
 class Event(object):
-    __slots__ = ('n', 'con', 'op', 'detail', 'pid', 'faulted', 'phase')
+    __slots__ = ('n', 'con', 'op', 'detail', 'pid', 'faulted', 'phase', 'shortcut')
 
     def __init__(self, n, con, op, detail, pid, phase):
         self.n, self.con, self.op, self.detail, self.pid, self.phase = n, con, op, detail, pid, phase
         self.faulted = False
+        self.shortcut = False         # True for sqlite3's Connection.execute() shortcut (what SQLitePool._connect uses)
 
     def __repr__(self):
         return '#%d %s%s.%s%s%s' % (self.n, '' if self.pid is None else 'pid%s ' % self.pid,
@@ -82,10 +83,12 @@ class Recorder(object):
     def pid(self):
         return self.clock.pid() if self.clock is not None else None
 
-    def tick(self, con, op, detail=None):
+    def tick(self, con, op, detail=None, shortcut=False):
+        pid = self.pid()              # observed before the call is numbered: a fork "before call f" is seen here with n == f-1
         self.n += 1
         n = self.n
-        ev = Event(n, con, op, detail, self.pid(), self.phase)
+        ev = Event(n, con, op, detail, pid, self.phase)
+        ev.shortcut = shortcut
         self.log.append(ev)
         if con is not None:
             con.calls += 1
@@ -149,8 +152,8 @@ class FakeCursor(object):
         self.lastrowid = None
         self.closed = False
 
-    def _run(self, op, sql, args):
-        self.rec.tick(self.con, op, sql if isinstance(sql, str) else repr(sql))
+    def _run(self, op, sql, args, shortcut=False):
+        self.rec.tick(self.con, op, sql if isinstance(sql, str) else repr(sql), shortcut)
         self.con._on_execute(sql)
         rows, descr = self.rec.respond(sql, args)
         self._rows = list(rows)
@@ -180,7 +183,7 @@ class FakeConnection(object):
     outputtypehandler = None
     server_version = 90200
 
-    def __init__(self, rec, tx_model='sqlite'):
+    def __init__(self, rec, tx_model='sqlite', event=None):
         self.rec = rec
         self.id = len(rec.connections) + 1
         rec.connections.append(self)
@@ -195,7 +198,7 @@ class FakeConnection(object):
         self.functions = []
         self.text_factory = None
         self.n_created = rec.n
-        self.pid_created = rec.pid()
+        self.pid_created = event.pid if event is not None else rec.pid()    # the pid under which connect() was called
         self.pool_released = 0        # used by FakeSessionPool / RecordingPool
         self.pool_dropped = 0
 
@@ -226,7 +229,7 @@ class FakeConnection(object):
         return FakeCursor(self)
 
     def execute(self, sql, args=None):          # sqlite3.Connection.execute shortcut
-        return FakeCursor(self)._run('execute', sql, args)
+        return FakeCursor(self)._run('execute', sql, args, shortcut=True)
 
     def commit(self):
         self.rec.tick(self, 'commit')
@@ -257,8 +260,8 @@ class FakeModule(object):
         self.__name__ = name or getattr(base, '__name__', 'fakedb')
 
     def connect(self, *args, **kwargs):
-        self._rec.tick(None, 'connect')
-        con = FakeConnection(self._rec, self._tx_model)
+        ev = self._rec.tick(None, 'connect')
+        con = FakeConnection(self._rec, self._tx_model, ev)
         con.module = self
         con.connect_args = (args, kwargs)
         return con
@@ -279,11 +282,13 @@ class FakeSessionPool(object):
         self.pid_created = rec.pid()
         self.acquired = []
         self.calls = 0
+        self.journal = []              # (pid at the time of the call, op, connection id, recorder phase)
 
     def acquire(self):
         self.calls += 1
-        self.rec.tick(None, 'acquire', 'pool%d' % self.id)
-        con = FakeConnection(self.rec, 'pep249')
+        self.journal.append((self.rec.pid(), 'acquire', None, self.rec.phase))
+        ev = self.rec.tick(None, 'acquire', 'pool%d' % self.id)
+        con = FakeConnection(self.rec, 'pep249', ev)
         con.module = self.module
         con.session_pool = self
         self.acquired.append(con)
@@ -291,11 +296,13 @@ class FakeSessionPool(object):
 
     def release(self, con):
         self.calls += 1
+        self.journal.append((self.rec.pid(), 'release', con.id, self.rec.phase))
         con.pool_released += 1
         con.rollback()
 
     def drop(self, con):
         self.calls += 1
+        self.journal.append((self.rec.pid(), 'drop', con.id, self.rec.phase))
         con.pool_dropped += 1
         con.close()
 
@@ -311,8 +318,8 @@ class RecordingPool(object):
     def connect(self):
         new = self.con is None
         if new:
-            self.rec.tick(None, 'connect')
-            self.con = FakeConnection(self.rec, self.tx_model)
+            ev = self.rec.tick(None, 'connect')
+            self.con = FakeConnection(self.rec, self.tx_model, ev)
             self.con.module = self.module
         self.journal.append(('connect', self.con.id, new))
         return self.con, new
@@ -386,31 +393,38 @@ def traced_eq(k, n):
 
 # -- os.getpid stand-in ------------------------------------------------------------------------------
 class ForkClock(object):
-    """pid() returns PARENT until the fork point, CHILD afterwards.
-    mode 'getpid': the fork happens just before the f-th call of getpid() (f >= 1; 0 = never);
-    mode 'dbapi' : the fork happens just before DB-API call number f of the recorder;
+    """pid() returns PARENT until the fork point, CHILD afterwards.  `f` may be a symbolic int (0 = never).
+    mode 'getpid': the fork happens just before the f-th call of getpid() (so that call already answers CHILD);
+    mode 'dbapi' : the fork happens right after DB-API call number f-1 of the recorder, i.e. before call f and
+                   before any getpid() in between (f = 1: before the first call);
     mode 'manual': the scenario calls fork() itself."""
     PARENT, CHILD = 1000, 2000
 
     def __init__(self, rec, f=0, mode='getpid'):
         self.rec, self.f, self.mode = rec, f, mode
+        self.compare = None
         self.getpid_calls = 0
         self.forked = False
-        self.fork_n = None            # recorder call count at the moment of the fork
+        self.fork_n = None            # number of DB-API calls made before the fork
+        self.fork_phase = None        # recorder phase (the scenario's session number) in which the fork happened
+
+    def _eq(self, a, b):
+        return self.compare(a, b) if self.compare is not None else a == b
 
     def fork(self):
         if not self.forked:
             self.forked = True
             self.fork_n = self.rec.n
+            self.fork_phase = self.rec.phase
 
     def getpid(self):
         self.getpid_calls += 1
-        if self.mode == 'getpid' and not self.forked and self.f == self.getpid_calls:
+        if self.mode == 'getpid' and not self.forked and self._eq(self.f, self.getpid_calls):
             self.fork()
         return self.pid()
 
     def pid(self):
-        if self.mode == 'dbapi' and not self.forked and self.f != 0 and self.rec.n + 1 >= self.f:
+        if self.mode == 'dbapi' and not self.forked and self._eq(self.f, self.rec.n + 1):
             self.fork()
         return self.CHILD if self.forked else self.PARENT
 
@@ -465,16 +479,6 @@ class ProbeLock(object):
 
 
 # -- real pony objects over the fakes ----------------------------------------------------------------------
-def sqlite_exc_factory(kind=0):
-    """kind 0: sqlite3.OperationalError, 1: sqlite3.IntegrityError, 2: a non-DB-API exception"""
-    import sqlite3
-    def make(op):
-        if kind == 0: return sqlite3.OperationalError('injected fault in %s' % op)
-        if kind == 1: return sqlite3.IntegrityError('injected fault in %s' % op)
-        return InjectedFault('injected fault in %s' % op)
-    return make
-
-
 def patch_sqlite_driver(rec):
     """Point the `sqlite` global of pony.orm.dbproviders.sqlite (the name SQLitePool._connect calls .connect on)
     at a recording module whose exception classes / version constants are sqlite3's own. Idempotent."""
@@ -489,21 +493,116 @@ def patch_sqlite_driver(rec):
     return mod
 
 
-def sqlite_database(rec, filename='/verif-fake/db.sqlite', probe_locks=True):
-    """Real Database + real SQLiteProvider + real SQLitePool (constructed directly, passed through the
-    `pony_pool_mockup` keyword so that no path handling / file system is involved) over the recording driver.
-    filename ':memory:' selects SQLitePool's memory behaviour (drop = rollback, never closed)."""
-    from pony.orm import Database
-    from pony.orm.dbproviders import sqlite as psqlite
-    patch_sqlite_driver(rec)
-    pool = psqlite.SQLitePool(False, filename, True)
-    db = Database()
-    db.provider_name = 'sqlite'
-    db._bind(psqlite.SQLiteProvider, filename, pony_pool_mockup=pool)
-    if probe_locks:
-        db.provider.transaction_lock = ProbeLock()
-        db.provider.pre_transaction_lock = ProbeLock()
+def _entities(db):
+    from pony.orm import PrimaryKey, Required
+
+    class T(db.Entity):
+        id = PrimaryKey(int)
+        a = Required(int)
+    db.generate_mapping(check_tables=False)
+    db.T = T
     return db
+
+
+def patch_oracle_driver(rec):
+    """Point the `cx_Oracle` global of pony.orm.dbproviders.oracle at a shim whose SessionPool is FakeSessionPool
+    (everything else comes from the stub driver module installed by engine.env). Idempotent."""
+    from engine import env
+    env.install_driver_stubs()
+    import cx_Oracle
+    from pony.orm.dbproviders import oracle as pora
+    cur = pora.cx_Oracle
+    if isinstance(cur, FakeModule):
+        cur._rec = rec
+        return cur
+    mod = FakeModule(rec, base=cx_Oracle, tx_model='pep249', name='cx_Oracle')
+    mod.SessionPool = lambda **kw: FakeSessionPool(mod._rec, mod, **kw)
+    pora.cx_Oracle = mod
+    return mod
+
+
+KINDS = ('sqlite-file', 'sqlite-memory', 'postgres', 'mysql', 'oracle')
+
+
+def make_database(kind, rec, wrap_pool=None, probe_locks=True, entities=True):
+    """A real pony Database on the real provider class and the REAL pool class of `kind`, over the recording driver.
+    The pool object is constructed directly and handed over through the `pony_pool_mockup` keyword (no path handling,
+    no file system, no driver import).  `wrap_pool(cls) -> cls` lets a check subclass the pool class (e.g. to count).
+    kinds: 'sqlite-file' (SQLitePool with Pool's close-on-drop behaviour), 'sqlite-memory' (drop = rollback, never
+    closed), 'postgres' (PGProvider + PGPool), 'mysql' (MySQLProvider + base Pool), 'oracle' (OraProvider + OraPool
+    over FakeSessionPool).  With `entities`, one mapped entity `db.T(id: PrimaryKey(int), a: Required(int))` exists."""
+    from pony.orm import Database
+    from engine import env
+    wrap_pool = wrap_pool or (lambda cls: cls)
+    db = Database()
+    if kind in ('sqlite-file', 'sqlite-memory'):
+        from pony.orm.dbproviders import sqlite as psqlite
+        patch_sqlite_driver(rec)
+        filename = ':memory:' if kind == 'sqlite-memory' else '/verif-fake/db.sqlite'
+        pool = wrap_pool(psqlite.SQLitePool)(False, filename, True)
+        db.provider_name = 'sqlite'
+        db._bind(psqlite.SQLiteProvider, filename, pony_pool_mockup=pool)
+        if probe_locks:
+            db.provider.transaction_lock = ProbeLock()
+            db.provider.pre_transaction_lock = ProbeLock()
+    elif kind == 'postgres':
+        env.install_driver_stubs()
+        import psycopg2
+        from pony.orm.dbproviders import postgres as ppg
+        mod = FakeModule(rec, base=psycopg2, tx_model='pep249', name='psycopg2')
+        db.provider_name = 'postgres'
+        db._bind(ppg.PGProvider, pony_pool_mockup=wrap_pool(ppg.PGPool)(mod))
+    elif kind == 'mysql':
+        env.install_driver_stubs()
+        import MySQLdb
+        from pony.orm.dbproviders import mysql as pmy
+        from pony.orm.dbapiprovider import Pool
+        mod = FakeModule(rec, base=MySQLdb, tx_model='pep249', name='MySQLdb')
+        db.provider_name = 'mysql'
+        db._bind(pmy.MySQLProvider, pony_pool_mockup=wrap_pool(Pool)(mod))
+    elif kind == 'oracle':
+        from pony.orm.dbproviders import oracle as pora
+        patch_oracle_driver(rec)
+        db.provider_name = 'oracle'
+        db._bind(pora.OraProvider, pony_pool_mockup=wrap_pool(pora.OraPool)(user='u', password='p', dsn='d'))
+    else:
+        raise ValueError(kind)
+    db.fake_kind = kind
+    return _entities(db) if entities else db
+
+
+def sqlite_database(rec, filename='/verif-fake/db.sqlite', probe_locks=True):
+    """Shorthand kept for callers that want no entities: real SQLiteProvider + real SQLitePool over the recording driver."""
+    return make_database('sqlite-memory' if filename == ':memory:' else 'sqlite-file', rec, probe_locks=probe_locks, entities=False)
+
+
+def driver_exc_factory(kind, exc_class=0):
+    """exc_class 0: the driver's OperationalError, built so that the provider's should_reconnect() answers yes where the
+    provider has a reconnect rule (PostgreSQL: pgcode None; MySQL: code 2006; Oracle: ORA-03113); 1: the driver's
+    IntegrityError (never reconnects); 2: an exception that is not a DB-API error."""
+    if exc_class == 2:
+        return lambda op: InjectedFault('injected fault in %s' % op)
+    name = 'IntegrityError' if exc_class else 'OperationalError'
+    if kind in ('sqlite-file', 'sqlite-memory'):
+        import sqlite3
+        return lambda op: getattr(sqlite3, name)('injected fault in %s' % op)
+    if kind == 'postgres':
+        import psycopg2
+        def make(op):
+            e = getattr(psycopg2, name)('injected fault in %s' % op)
+            e.pgcode = None
+            return e
+        return make
+    if kind == 'mysql':
+        import MySQLdb
+        return lambda op: getattr(MySQLdb, name)(2006, 'injected fault in %s' % op)
+    if kind == 'oracle':
+        import cx_Oracle
+        class _OraErr(object):
+            code = 3113
+            message = 'ORA-03113: injected'
+        return lambda op: getattr(cx_Oracle, name)(_OraErr())
+    raise ValueError(kind)
 
 
 def reset_sqlite_database(db):
